@@ -231,6 +231,9 @@ class RenewUnit(IQBase):
             return [('ok', s, self.z)]
         self.me.set(st, '_q', Rec(ex, 'q', methods={'get': Fn(qget)}))
         ex.globals['range'] = Fn(lambda e, s, a, k, n: [('ok', s, RangeVal(a[0]))])
+        st.ghost['used0'], st.ghost['spare0'] = st.ghost['used'], st.ghost['spare']
+        st.ghost['ri'] = z3.IntVal(0)
+        st.ghost['#counted'] = False          # True once a range() loop drives the recycling (then ri counts the tokens moved)
         return st
 
     def interfere(self, ex, st):
@@ -238,10 +241,12 @@ class RenewUnit(IQBase):
 
     @property
     def loops(self):
-        return {0: LoopSpec(inv=lambda s, ex: z3.And(s.ghost['hand'] == 0, s.ghost['used'] + s.ghost['spare'] == s.ghost['used0'] + s.ghost['spare0'],
-                                                      s.ghost['spare'] == s.ghost['spare0'] + s.ghost['ri'], s.ghost['qgets'] == 1, s.ghost['ri'] >= 0, s.ghost['ri'] <= self.n,
-                                                      s.ghost['used0'] == self.n, self.z == NONE),
-                            keep_ghost=('qgets', 'used0', 'spare0', 'hand', 'applied'))}
+        def inv(s, ex):
+            base = [s.ghost['hand'] == 0, s.ghost['used'] + s.ghost['spare'] == s.ghost['used0'] + s.ghost['spare0'], s.ghost['qgets'] == 1, s.ghost['used0'] == self.n, self.z == NONE, s.ghost['used'] >= 0]
+            if s.ghost.get('#counted'):
+                base += [s.ghost['spare'] == s.ghost['spare0'] + s.ghost['ri'], s.ghost['ri'] >= 0, s.ghost['ri'] <= self.n]
+            return z3.And(base)
+        return {0: LoopSpec(inv=inv, keep_ghost=('qgets', 'used0', 'spare0', 'hand', 'applied'))}
 
     def run(self, override=None):
         return super().run(override)
@@ -268,6 +273,7 @@ class RangeVal(Obj):
         st = st.fork()
         st.ghost['ri'] = z3.IntVal(0)
         st.ghost['used0'], st.ghost['spare0'] = st.ghost['used'], st.ghost['spare']
+        st.ghost['#counted'] = True
         return [('ok', st, self)]
 
     def pull(self, ex, st, node):
